@@ -70,6 +70,12 @@ impl CleanMarkerStore {
             .write()
             .map_err(|_| std::io::Error::new(std::io::ErrorKind::Other, "store lock poisoned"))?;
         for (topic, record) in updates {
+            // never let an older snapshot (taken by another thread) overwrite a newer one
+            if let Some(existing) = guard.get(topic) {
+                if existing.generation > record.generation {
+                    continue;
+                }
+            }
             guard.insert(topic.clone(), record.clone());
         }
         Self::persist_map(&self.path, &guard)
@@ -141,11 +147,11 @@ pub struct TopicCleanTracker {
     persist_tx: mpsc::Sender<String>,
 }
 
-impl Drop for TopicCleanTracker {
-    fn drop(&mut self) {
-        // The persister thread writes markers asynchronously and simply exits once the tracker
-        // is gone, so a change made shortly before shutdown was never written and the next
-        // run reported the old state. Flush the current markers synchronously.
+impl TopicCleanTracker {
+    /// Write the current markers synchronously. The persister thread writes them
+    /// asynchronously and simply exits once the tracker is gone, so a change made shortly
+    /// before shutdown was never written and the next run reported the old state.
+    pub fn flush(&self) {
         let snapshot: Vec<(String, CleanMarkerRecord)> = match self.states.read() {
             Ok(guard) => guard
                 .iter()
